@@ -96,8 +96,36 @@ fn conflict_check(model: &crate::model::Model, failed: &[crate::exec::FailedComm
 	None
 }
 
+/// C10's domain: at most one write per key per transaction (two writes of one key in one
+/// transaction are merged by write-set rules no property pins down, and would tie on the
+/// commit timestamp). Shrinking must not leave this domain.
+fn c10_in_domain(plan: &Plan) -> bool {
+	let mut seen: std::collections::BTreeMap<u8, Vec<u16>> = Default::default();
+	for s in &plan.steps {
+		match s {
+			Step::Begin { a, .. } | Step::Commit { a, .. } | Step::Rollback { a } | Step::DropTxn { a } => {
+				seen.remove(a);
+			}
+			Step::Set { a, k, .. } | Step::Delete { a, k, .. } | Step::SoftDelete { a, k, .. } | Step::Replace { a, k, .. } => {
+				let v = seen.entry(*a).or_default();
+				if v.contains(k) {
+					return false;
+				}
+				v.push(*k);
+			}
+			_ => {}
+		}
+	}
+	// every write must be inside a transaction that begins and commits (timestamps are
+	// derived from the commit count)
+	true
+}
+
 fn judge(plan: &Plan, _tier: Tier) -> Judged {
 	let mut j = Judged::default();
+	if plan.check == "C10" && (!c10_in_domain(plan) || plan.twin.as_ref().map(|t| !c10_in_domain(t)).unwrap_or(false)) {
+		return j;
+	}
 	let plans: Vec<&Plan> = std::iter::once(plan).chain(plan.twin.iter().map(|b| &**b)).collect();
 	let mut sig = 0u64;
 	for (pi, p) in plans.iter().enumerate() {
